@@ -269,7 +269,38 @@ def r07_5(ctx):
     ctx.ob("R07.5", "end-tag-suppressed-iff-ignore_children", ok, "the end tag is omitted exactly on the ignore_children path")
 
 
+def r07_7(ctx):
+    """the elements whose children (and end tag) the serializer skips are the standard's 18 void-like elements, in the HTML namespace only"""
+    import json as _json, os as _os
+    spec = set(_json.load(open(_os.path.join(_os.path.dirname(_os.path.dirname(_os.path.abspath(__file__))), "ref", "spec_sets.json")))["serializer_void_elements"])
+    key, pcs = nfq.cells(ctx, AREA, "[Serializer]::start_elem")
+    got = None
+    under_html = True
+    n = 0
+    for pc in nfq.feasible(pcs):
+        for a, args in pc["actions"]:
+            if a != "self.stack.push":
+                continue
+            txt = " ".join(str(x) for x in args)
+            m = re.search(r"ElemInfo\([^,]*(?:\([^)]*\))?[^,]*,\s*(true|false|[^)]*)\)\s*$", txt)
+        pos = [g for g, v in pc["guards"].items() if v and ".local matches atom:" in g and "atom:br" in g]
+        for g in pos:
+            n += 1
+            names = set(re.findall(r"atom:([\w-]+)", g.split(" matches ", 1)[1]))
+            got = names if got is None else (got | names)
+            if not any(v and "ns" in k and "xhtml" in k for k, v in pc["guards"].items()):
+                under_html = False
+    if got is None:
+        raise AnchorMissing("start_elem: the void-element test was not found")
+    ok = got == spec
+    ctx.ob("R07.7", "void-elements" + ("" if ok else "/" + ",".join(sorted(got ^ spec))), ok, "children skipped exactly for %s" % sorted(spec) if ok else "missing: %s; extra: %s" % (sorted(spec - got), sorted(got - spec)), "html5ever serialize start_elem")
+    ctx.ob("R07.7", "void-elements-html-namespace-only", under_html, "the void-element test is made under an HTML-namespace test")
+    ctx.floor("R07.7", "void-test-paths", n, 1)
+
+
 def run(ctx):
+    ctx.rule("R07.7", "the serializer treats exactly the standard's void-like elements (HTML namespace) as childless")
+    ctx.guard("R07.7", "void", lambda: r07_7(ctx))
     ctx.rule("R07.1", "escape table sound and reversible: needles >= {&,<} (text) / {&,\"} (attr); every needle has a replacement the parser maps back")
     ctx.rule("R07.1b", "the escape loop writes something for every needle it advances past (byte conservation)")
     ctx.rule("R07.2", "attribute values go through write_escaped(_, true) between '=\"' and '\"'; text is raw only under a parent-name test")
